@@ -53,6 +53,21 @@ fn judge<T: Sc>(idx: usize, l: &ThLine, rep: &mut Report) {
     } else {
         Some(T::of64((2.0f64).powi(-l.thr.u) * if l.thr.neg { -1.0 } else { 1.0 }))
     };
+    // C11: the parallel flavour applies the same threshold as the sequential one
+    {
+        let mk = |par: bool| build_problem(TableModel::new(table.clone(), &[0]), true, par, &y, Some(&w), eps).ok().and_then(|p| p.coeffs());
+        if let (Some(cs), Some(cp)) = (mk(false), mk(true)) {
+            let scale = cs.iter().fold(1.0f64, |m, v| m.max(v.to64().abs()));
+            let d = cs.iter().zip(cp.iter()).fold(0.0f64, |m, (a, b)| {
+                let x = (a.to64() - b.to64()).abs() / scale;
+                m.max(if x.is_finite() { x } else { f64::INFINITY })
+            });
+            rep.check("C11", d <= T::tol(), d, || {
+                json!({"flavour": format!("line={} {} ks={:?} thr={}{}", idx, T::NAME, l.ks, l.thr.kind, l.thr.u), "dev": d,
+                       "what": "parallel problem applies a different singular value threshold than the sequential problem"})
+            });
+        }
+    }
     for (mrhs, par) in [(s >= 2, false), (true, true)] {
         let flav = format!("line={} {} M={} N={} ks={:?} thr={}{}{} mrhs={} par={}", idx, T::NAME, m, n, l.ks, l.thr.kind, if l.thr.neg { "-" } else { "+" }, l.thr.u, mrhs, par);
         let prob = match build_problem(TableModel::new(table.clone(), &[0]), mrhs, par, &y, Some(&w), eps) {
